@@ -54,6 +54,7 @@ M_X_FMT = 'xsec:formats-agree'
 M_X_GRID = 'xsec:grids-and-orientation'
 M_X_NAME = 'xsec:served-under-sanitised-name'
 M_X_UNIT = 'xsec:hdf5-declared-unit-honoured'
+M_X_SUB = 'request-of-native-points==rows-of-native-result'
 M_C_NODE = 'cia:nodes==table[SI]'
 M_C_FMT = 'cia:formats-agree'
 M_C_GRID = 'cia:grids-and-orientation'
@@ -69,11 +70,11 @@ M_H_INTERP = 'xsec:interpolation-mode-takes-effect'
 M_HK_INTERP = 'ktab:interpolation-mode-takes-effect'
 M_CIA_FIRST = 'cia:first-request-served'
 REQUIRED = dict(
-    monitors=[M_X_NODE, M_X_FMT, M_X_GRID, M_X_NAME, M_X_UNIT, M_C_NODE, M_C_FMT, M_C_GRID, M_C_NAME, M_K_NODE, M_K_FMT,
+    monitors=[M_X_SUB, M_X_NODE, M_X_FMT, M_X_GRID, M_X_NAME, M_X_UNIT, M_C_NODE, M_C_FMT, M_C_GRID, M_C_NAME, M_K_NODE, M_K_FMT,
               M_K_GRID, M_K_NAME, M_H_ONCE, M_H_PATH, M_H_VAL, M_H_INTERP, M_HK_INTERP, M_CIA_FIRST],
     classes=['xsec:pickle', 'xsec:hdf5', 'xsec:exotransmit', 'unit:Pa', 'unit:bar', 'unit:mbar', 'unit:Ba',
              'unit:cds-only', 'cia:pickle', 'cia:hitran', 'hitran:per-temperature-ranges', 'hitran:negative-floored',
-             'hitran:ranges-share-a-wavenumber',
+             'hitran:ranges-share-a-wavenumber', 'query:work-array-refilled-in-place',
              'ktab:pickle', 'ktab:hdf5', 'name:isotopologue', 'name:suffix', 'query:node', 'query:interior',
              'query:outside', 'query:wngrid', 'interp:linear', 'interp:exp', 'hist:xsec', 'hist:cia', 'hist:ktab',
              'op:clear_cache', 'op:set_interpolation', 'op:set_memory_mode', 'op:set_path', 'hist:repeat>=3',
@@ -284,7 +285,43 @@ def wn_queries(rng, wn):
     a = int(rng.integers(0, len(wn) - 1))
     b = int(rng.integers(a + 1, len(wn)))
     off = np.sort(rng.uniform(wn[0] * 0.9, wn[-1] * 1.1, int(rng.integers(2, 9))))
-    return [('native', None), ('subrange', np.array(wn[a:b + 1])), ('offgrid', off)]
+    out = [('native', None), ('subrange', np.array(wn[a:b + 1])), ('offgrid', off)]
+    m = b + 1 - a
+    if len(wn) - m >= 1:
+        # another window of the SAME length elsewhere on the native grid (the caller's work array gets it next)
+        a2 = int(rng.integers(0, len(wn) - m + 1))
+        if a2 != a:
+            out.append(('subrange-b', np.array(wn[a2:a2 + m])))
+    return out
+
+
+def ask(ctx, op, t, p, wg, work):
+    """op.opacity(t, p, wg) the way a caller with ONE work array per length does it: the array object of the previous
+    request of that length, refilled in place with the points of this request."""
+    if wg is None:
+        return np.array(op.opacity(t, p, None), dtype=float)
+    buf = work.get(len(wg))
+    if buf is None:
+        buf = work[len(wg)] = np.array(wg, dtype=float, copy=True)
+    else:
+        buf[...] = wg
+        ctx.observe('query:work-array-refilled-in-place')
+    return np.array(op.opacity(t, p, buf), dtype=float)
+
+
+def judge_subranges(ctx, monitor, res, wn, wq, **wit):
+    """A request made of native points returns exactly the rows of the native result for the same (T, P)."""
+    for (cls, t, p, wcls), (got, _) in res.items():
+        if not wcls.startswith('subrange') or (cls, t, p, 'native') not in res:
+            continue
+        wg = [g for c_, g in wq if c_ == wcls][0]
+        idx = np.searchsorted(wn, wg)
+        if np.any(idx >= len(wn)) or not np.array_equal(wn[np.minimum(idx, len(wn) - 1)], wg):
+            ctx.event('subrange-not-of-exactly-native-points')       # e.g. Exo-Transmit text: the axis is re-read from decimals
+            continue
+        full = res[(cls, t, p, 'native')][0]
+        ctx.check(monitor, got.shape[0] == len(idx) and bool(np.array_equal(got, full[idx], equal_nan=True)), T=t, P=p,
+                  request=wcls, **wit)
 
 
 # ------------------------------------------------------------ xsec formats
@@ -375,18 +412,20 @@ def wl_xsec(ctx, rng):
             ctx.close(M_X_GRID, op.wavenumberGrid, wn, 4e-16 if fmt == 'exotransmit' else 0.0, axis='wn', format=fmt)
             # ---- values
             res = {}
+            work = {}
             for cls, t, p in tq:
                 corner = L.bracket_corner_max(T, P, x_si, t, p)
                 for wcls, wg in wq:
                     if cls == 'node' and wcls != 'native':
                         continue
-                    got = np.array(op.opacity(t, p, wg), dtype=float)
+                    got = ask(ctx, op, t, p, wg, work)
                     cmax = corner if wcls == 'native' else np.full(len(wg), float(corner.max()))
                     res[(cls, t, p, wcls)] = (got, cmax)
                     if cls == 'node':
                         i, j = int(np.argmin(np.abs(P - p))), int(np.argmin(np.abs(T - t)))
                         _close(ctx, M_X_NODE, got, x_si[i, j], cmax, exo=(fmt == 'exotransmit'), format=fmt,
                                unit=c['unit'], node=[i, j])
+            judge_subranges(ctx, M_X_SUB, res, np.asarray(op.wavenumberGrid, dtype=float), wq, format=fmt)
             results[fmt] = res
         ref = results.get('pickle')
         if ref is not None:
@@ -713,17 +752,19 @@ def wl_ktab(ctx, rng):
             ctx.close(M_K_GRID, op.wavenumberGrid, wn, 0.0, axis='wn', format=fmt)
             ctx.close(M_K_GRID, op.weights, w, 0.0, axis='weights', format=fmt)
             res = {}
+            work = {}
             for cls, t, p in tq:
                 corner = L.bracket_corner_max(T, P, k_si, t, p)            # [nwn, ng]
                 for wcls, wg in wq:
                     if cls == 'node' and wcls != 'native':
                         continue
-                    got = np.array(op.opacity(t, p, wg), dtype=float)
+                    got = ask(ctx, op, t, p, wg, work)
                     cmax = corner if wcls == 'native' else np.full((len(wg), ng), float(corner.max()))
                     res[(cls, t, p, wcls)] = (got, cmax)
                     if cls == 'node':
                         i, j = int(np.argmin(np.abs(P - p))), int(np.argmin(np.abs(T - t)))
                         _close(ctx, M_K_NODE, got, k_si[i, j], cmax, format=fmt, unit=un, node=[i, j])
+            judge_subranges(ctx, M_X_SUB, res, np.asarray(op.wavenumberGrid, dtype=float), wq, format='ktab-' + fmt)
             results[fmt] = res
         observed_only_ktab(ctx, rng, root, mol, wn, T, P, k, w)
         if len(results) == 2:
